@@ -1,11 +1,12 @@
-(* SendReq/Props.v — property C10: the theorems, nothing else.
+(* SendReq/Props.v — property C10: the theorems (each closed by [exact <lemma>]; the proofs are in the Proofs*.v files, the last step
+   in ProofsTop.v) and the non-vacuity examples, nothing else.
    Model: SendReq/Model.v ([run cfg script rands sleeps] = the attempts/back-offs of one SendReqCtx call and its result).
    Quantification: ALL configurations (any number of replicas, any initial replica/store state), ALL fault scripts,
    ALL oracle inputs (random tie-breaks, jittered sleep lengths). *)
 From Coq Require Import List Bool Arith NArith Lia.
 Import ListNotations.
 From Verif Require Import SendReq.Model SendReq.ProofsBound SendReq.ProofsSelect SendReq.ProofsLoop
-  SendReq.ProofsFlags SendReq.ProofsResult SendReq.ProofsLasso SendReq.ProofsBudget SendReq.Cache SendReq.ProofsCache SendReq.ProofsCancel SendReq.ProofsAsync.
+  SendReq.ProofsFlags SendReq.ProofsResult SendReq.ProofsLasso SendReq.ProofsBudget SendReq.Cache SendReq.ProofsCache SendReq.ProofsCancel SendReq.ProofsAsync SendReq.ProofsTop.
 
 (* --- boundedness --------------------------------------------------------------------------------------------- *)
 (* Every attempt uses up one of the maxReplicaAttempt (10) attempts of some replica; attempts are only ever given back by
@@ -17,10 +18,7 @@ From Verif Require Import SendReq.Model SendReq.ProofsBound SendReq.ProofsSelect
 Theorem C10_bounded : forall c script rands sleeps,
   n_attempts (fst (run c script rands sleeps)) <=
   max_replica_attempt * length (c_reps c) + length (c_reps c) * (length (c_reps c) - 1).
-Proof.
-  intros c script rands sleeps. pose proof (run_bound true c script rands sleeps). pose proof (run_rearms_fixed c script rands sleeps).
-  unfold run in *. lia.
-Qed.
+Proof. exact C10_bounded_proof. Qed.
 Print Assumptions C10_bounded.
 
 (* the finer accounting: attempts <= 10 * replicas + re-arms actually made *)
@@ -33,10 +31,7 @@ Print Assumptions C10_bounded_general.
 (* ... and re-arms need NotLeader-with-hint outcomes: a script with h of them allows at most h re-arms *)
 Theorem C10_bounded_by_hints : forall c script rands sleeps,
   n_attempts (fst (run c script rands sleeps)) <= max_replica_attempt * length (c_reps c) + n_hints script.
-Proof.
-  intros c script rands sleeps. pose proof (run_bound true c script rands sleeps). pose proof (run_rearms true c script rands sleeps).
-  unfold run in *. lia.
-Qed.
+Proof. exact C10_bounded_by_hints_proof. Qed.
 Print Assumptions C10_bounded_by_hints.
 
 (* Why the re-arm limit is needed (finding F10, repaired): with the rule before the fix ([run_before_fix]: every hint re-arms an
@@ -49,11 +44,7 @@ Theorem C10_unbounded_before_fix :
   (forall k, n_attempts (fst (run_before_fix c0 (lasso k) [] [])) = 22 + 2 * k /\
              n_backoffs (fst (run_before_fix c0 (lasso k) [] [])) = 0 /\
              forallb is_hint (lasso k) = true).
-Proof.
-  split.
-  - intros [B H]. specialize (H c0 (lasso B) [] [] eq_refl). destruct (lasso_attempts B) as [A _]. lia.
-  - intros k. destruct (lasso_attempts k) as [A B]. repeat split; auto. apply lasso_only_hints.
-Qed.
+Proof. exact C10_unbounded_before_fix_proof. Qed.
 Print Assumptions C10_unbounded_before_fix.
 
 (* --- flag discipline ----------------------------------------------------------------------------------------- *)
@@ -69,12 +60,7 @@ Theorem C10_flags : forall c script rands sleeps,
    | first :: later => first = false /\ Forall (fun d => d = true) later
    end) /\
   (c_read c = true -> c_val c = false -> c_store_tp c <> TpTiDB -> run c script rands sleeps = ([], RError)).
-Proof.
-  intros c script rands sleeps. split; [|split].
-  - intros R ST. unfold run, run_gen, validation_refuses. rewrite R. cbn [andb]. apply (loop_write true c script R ST); cbn; rewrite R; reflexivity.
-  - apply (run_retry true).
-  - intros R V T. unfold run, run_gen, validation_refuses. rewrite R, V. destruct (c_store_tp c); try reflexivity. congruence.
-Qed.
+Proof. exact C10_flags_proof. Qed.
 Print Assumptions C10_flags.
 
 (* --- no fabrication ------------------------------------------------------------------------------------------ *)
@@ -91,7 +77,7 @@ Theorem C10_no_fabrication : forall c script rands sleeps evs r,
   | RFatal j => j + 1 = n_attempts evs /\ j < length script /\ is_fatal (nth j script OSuccess) = true
   | RPseudo | RError => True
   end.
-Proof. intros c script rands sleeps evs r H. apply (run_result true) in H. destruct r; auto. Qed.
+Proof. exact C10_no_fabrication_proof. Qed.
 Print Assumptions C10_no_fabrication.
 
 (* --- when is an error returned ------------------------------------------------------------------------------- *)
@@ -107,7 +93,7 @@ Theorem C10_error_only_when_spent : forall c script rands sleeps evs,
   ((0 < c_max_sleep c)%N /\
    ((c_max_sleep c <= tot evs - exc evs)%N \/ ((excl_limit <= exc evs)%N /\ (c_max_sleep c <= exc evs)%N))) \/
   c_cancel c <> TNever \/ c_kill c <> TNever.
-Proof. intros c script rands sleeps evs H. exact (run_error true c script rands sleeps evs H). Qed.
+Proof. exact C10_error_only_when_spent_proof. Qed.
 Print Assumptions C10_error_only_when_spent.
 
 (* --- how many back-offs a budget admits ------------------------------------------------------------------------ *)
@@ -118,7 +104,7 @@ Theorem C10_backoffs_bounded : forall c script rands sleeps,
   (0 < c_max_sleep c)%N ->
   (2 * n_plain (fst (run c script rands sleeps)) <= c_max_sleep c + 1)%N /\
   (1000 * n_excl (fst (run c script rands sleeps)) <= N.max excl_limit (c_max_sleep c) + 999)%N.
-Proof. intros c script rands sleeps M. exact (run_backoffs true c script rands sleeps M). Qed.
+Proof. exact C10_backoffs_bounded_proof. Qed.
 Print Assumptions C10_backoffs_bounded.
 
 (* --- caller cancellation stops the call ----------------------------------------------------------------------------- *)
@@ -152,17 +138,17 @@ Proof. exact run_st_fst. Qed.
 Print Assumptions C10_cache_same_run.
 
 (* [run_seq]: each call starts from the cache state its predecessor left.  Every call of every sequence is bounded (by the
-   replica count of the state it starts from), whatever the scripts, from any initial cache state. *)
+   replica count of the state it starts from), whatever the scripts, from any initial cache state.  This is a COROLLARY:
+   C10_bounded (which already quantifies over every initial cache state) mapped over the list of calls; the content of the
+   multi-call work is the cache-state prediction ([run_st] / [end_cache]) that the check compares with the implementation. *)
 Theorem C10_bounded_seq : forall calls c pd,
   Forall (fun cx => n_attempts (fst (snd cx)) <=
                     max_replica_attempt * length (c_reps (fst cx)) + length (c_reps (fst cx)) * (length (c_reps (fst cx)) - 1))
          (run_seq c calls pd).
-Proof. exact (run_seq_each (fun c x => n_attempts (fst x) <= max_replica_attempt * length (c_reps c) + length (c_reps c) * (length (c_reps c) - 1)) C10_bounded). Qed.
+Proof. exact C10_bounded_seq_proof. Qed.
 Print Assumptions C10_bounded_seq.
 
 (* --- non-vacuity --------------------------------------------------------------------------------------------- *)
-Definition c_stale_read : cfg := mkCfg RTMixed true true false false false false 100000%N true
-  [fresh_rep Reachable false false false; fresh_rep Reachable false false false; fresh_rep Reachable false false false] false TpTiKV TNever TNever true 0 None false.
 (* stale read: DataIsNotReady on the first replica, ServerIsBusy on the leader, RPC error on the last replica *)
 Example ex_stale_read :
   run c_stale_read [ODataIsNotReady; OBusy false; ORpcErr Reachable] [0; 0] [55; 1057]%N =
@@ -183,8 +169,6 @@ Example ex_lasso_terminates : n_attempts (fst (run c0 (lasso 1000) [] [])) = 25 
 Proof. vm_compute. auto. Qed.
 
 (* forwarding: leader store unreachable from the client, the request goes through replica 1 (ForwardedHost = leader) *)
-Definition c_fwd : cfg := mkCfg RTLeader false true false false false false 100000%N true
-  [fresh_rep Unreachable false false false; fresh_rep Reachable false false false; fresh_rep Reachable false false false] true TpTiKV TNever TNever true 0 None false.
 Example ex_forward : run c_fwd [] [] [] = ([EProxy 1; EAtt 0 false false false], RSuccess 0).
 Proof. vm_compute. reflexivity. Qed.
 (* budget of 120 ms: the third RPC back-off is refused *)
@@ -200,8 +184,6 @@ Proof. vm_compute. auto. Qed.
 
 (* caller cancellation and kill: the call ends with an error, at most one more attempt reaches a client after the cancellation
    (it is answered with the context error), none after an interruptible request saw the kill flag; never a fabricated success *)
-Definition c_cancelled (t : trigger) : cfg := mkCfg RTLeader false true false false false false 100000%N true (c_reps c0) false TpTiKV t TNever true 0 None false.
-Definition c_killed (t : trigger) (ir : bool) : cfg := mkCfg RTLeader false true false false false false 100000%N true (c_reps c0) false TpTiKV TNever t ir 0 None false.
 Example ex_cancel :
   run (c_cancelled TPre) [] [] [] = ([EAtt 0 false false false], RError) /\
   run (c_cancelled (TAtt 0)) [ONotLeaderHint 1; OSuccess] [] [] = ([EAtt 0 false false false; EAtt 1 false false true], RError) /\
@@ -218,9 +200,6 @@ Proof. vm_compute. auto. Qed.
 (* a later call on a region whose cache remembers proxy 1 (memoised by an earlier call) while the leader store stays unreachable and
    every forwarded attempt gets StaleCommand: the memoised proxy is used once (it must still be a candidate), then replica 2,
    then the selector gives up — 2 attempts, pseudo region error *)
-Definition c_later_call : cfg := mkCfg RTLeader false true false false false false 100000%N true
-  [fresh_rep Unreachable false false false; fresh_rep Reachable false false false; fresh_rep Reachable false false false]
-  true TpTiKV TNever TNever true 0 (Some 1) false.
 Example ex_memoised_proxy :
   run c_later_call (repeat OStaleCommand 40) [] [] =
   ([EProxy 1; EAtt 0 false false false; EProxy 2; EAtt 0 false false true], RPseudo).
@@ -228,7 +207,6 @@ Proof. vm_compute. reflexivity. Qed.
 
 (* two calls on the same cached region, forwarding on: call 1 finds the leader's store unreachable and succeeds through replica 1,
    which is memoised; call 2 (leader still unreachable, StaleCommand for ever) uses the memoised proxy once, then replica 2, gives up *)
-Definition c_fw_ok : cfg := mkCfg RTLeader false true false false false false 100000%N true (c_reps c0) true TpTiKV TNever TNever true 0 None false.
 Example ex_two_calls :
   map snd (run_seq c_fw_ok [([ORpcErr Unreachable], [], [55%N]); (repeat OStaleCommand 40, [], [])] 0) =
   [([EAtt 0 false false false; EBo BoRPC 55; EProxy 1; EAtt 0 false false true], RSuccess 1);
